@@ -113,7 +113,9 @@ def progFromJson (j : Json) : Prog :=
         params := (getArr (field f "params")).map fun p => (getStr (idx p 0), tyFromJson (idx p 1))
         ret := tyFromJson (field f "ret")
         body := stmtsFromJson (field f "body") }
-    consts := (getArr (field j "consts")).map fun c => (getStr (idx c 0), valFromJson (idx c 1)) }
+    consts := (getArr (field j "consts")).map fun c => (getStr (idx c 0), valFromJson (idx c 1))
+    enums := (getArr ((j.getObjVal? "enums").toOption.getD (Json.arr #[]))).map fun e =>
+      (getStr (idx e 0), tyFromJson.variantsFromJson (idx e 1)) }
 
 def panicName : PanicKind → String
   | .overflow => "Overflow" | .divByZero => "DivByZero" | .outOfBounds => "OutOfBounds"
